@@ -2624,8 +2624,8 @@ var c15Mutants = []Mutant{
 		New:    "\tif last != \"\" {",
 		Expect: "C15.R2.page-function"},
 	{Name: "tags-page-struct-shared", File: "registry/remote/repository.go",
-		Old: "\tvar page struct {\n\t\tTags []string `json:\"tags\"`\n\t}\n\tlr := limitReader(resp.Body, r.MaxMetadataBytes)\n\tif err := json.NewDecoder(lr).Decode(&page); err != nil {\n\t\treturn \"\", fmt.Errorf(\"%s %q: failed to decode response: %w\", resp.Request.Method, resp.Request.URL, err)\n\t}\n\tif err := fn(page.Tags); err != nil {\n\t\treturn \"\", err\n\t}\n\n\treturn parseLink(resp)\n}\n",
-		New: "\tpage := &sharedTagsPage\n\tlr := limitReader(resp.Body, r.MaxMetadataBytes)\n\tif err := json.NewDecoder(lr).Decode(page); err != nil {\n\t\treturn \"\", fmt.Errorf(\"%s %q: failed to decode response: %w\", resp.Request.Method, resp.Request.URL, err)\n\t}\n\tif err := fn(page.Tags); err != nil {\n\t\treturn \"\", err\n\t}\n\n\treturn parseLink(resp)\n}\n\n// sharedTagsPage is reused by every tag list request to save allocations.\nvar sharedTagsPage struct {\n\tTags []string `json:\"tags\"`\n}\n",
+		Old:    "\tvar page struct {\n\t\tTags []string `json:\"tags\"`\n\t}\n\tlr := limitReader(resp.Body, r.MaxMetadataBytes)\n\tif err := json.NewDecoder(lr).Decode(&page); err != nil {\n\t\treturn \"\", fmt.Errorf(\"%s %q: failed to decode response: %w\", resp.Request.Method, resp.Request.URL, err)\n\t}\n\tif err := fn(page.Tags); err != nil {\n\t\treturn \"\", err\n\t}\n\n\treturn parseLink(resp)\n}\n",
+		New:    "\tpage := &sharedTagsPage\n\tlr := limitReader(resp.Body, r.MaxMetadataBytes)\n\tif err := json.NewDecoder(lr).Decode(page); err != nil {\n\t\treturn \"\", fmt.Errorf(\"%s %q: failed to decode response: %w\", resp.Request.Method, resp.Request.URL, err)\n\t}\n\tif err := fn(page.Tags); err != nil {\n\t\treturn \"\", err\n\t}\n\n\treturn parseLink(resp)\n}\n\n// sharedTagsPage is reused by every tag list request to save allocations.\nvar sharedTagsPage struct {\n\tTags []string `json:\"tags\"`\n}\n",
 		Expect: "C15.R2.page-function"},
 	{Name: "link-malformed-ends-listing", File: "registry/remote/utils.go",
 		Old:    "\tif link[0] != '<' {\n\t\treturn \"\", fmt.Errorf(\"invalid next link %q: missing '<'\", link)\n\t}",
